@@ -30,6 +30,10 @@ OPERANDS = [
     ["a", "b", "a"], ["x", "y", "x"], ["r", "s", "r"], ["u", "v", "u"], ["st", "tt", "st"], ["st", "tt", "x"],
     ["st", "x", "y"], ["m", "x", "y"], ["a", "x", "y"], ["a", "r", "s"], ["a", "u", "v"], ["a", "st", "tt"],
     ["x", "3"], ["r", "2.0"], ["x", "(- 2)"],
+    # constant operands: the adapters fold some of them while reading
+    ["1", "3"], ["7", "2"], ["(- 7)", "2"], ["1.5", "0.5"], ["1.0", "3.0"], ["0", "5"], ["3"], ["(- 3)"], ["2.5"],
+    ["#b0101", "#b0011"], ["#b1000", "#b0001"], ["#b1000"], ["\"ab\"", "\"b\""], ["\"abc\"", "\"c\"", "1"], ["\"12\""],
+    ["true", "false"], ["false", "a"],
 ]
 RESULTS = [None, "zi", "zr", "zu", "z1", "z8", "zs", "zm"]       # None: the application itself is asserted
 
